@@ -66,27 +66,28 @@ func compareAnyway(name string) bool {
 	return false
 }
 
-// c06In is one case: one source text, or (exhaustive classes) a run of consecutive strings of the
-// enumeration.  A witness names the failing source; {"srcs":["…"],"class":"replay"} replays it alone.
+// c06In is one case: a run of 64 consecutive strings of an exhaustive enumeration, or 8 random
+// sources (the driver keeps every outcome in memory, so sources are grouped).  A witness names the failing source; {"srcs":["…"],"class":"replay"} replays it alone.
 type c06In struct {
 	Srcs  []string `json:"srcs"`
 	Class string   `json:"class"`
+	Cls   []string `json:"cls,omitempty"` // class of each source when they differ (random cases)
 }
 
 func init() {
 	fw.Register(&fw.Prop{
 		ID: "C06",
-		Rule: "one case = one source text, run through Tokenize (comments kept and skipped), ParseStylesheetBytes, ParseRuleList, ParseDeclarationListString, ParseBlocksContents, ParseOneDeclaration, ParseOneComponentValue and ParseNth, each compared with the reference implementation of CSS Syntax 3. " +
+		Rule: "one case = 64 consecutive strings of an exhaustive enumeration or 8 random source texts; every source is run through Tokenize (comments kept and skipped), ParseStylesheetBytes, ParseRuleList, ParseDeclarationListString, ParseBlocksContents, ParseOneDeclaration, ParseOneComponentValue and ParseNth, each compared with the reference implementation of CSS Syntax 3. " +
 			"Classes: exhaustive strings over three 14-symbol alphabets (tokenizer boundaries; declaration/rule punctuation; url/escape/number) up to length 4 (quick) or 5 (thorough, first alphabet 6), then random: hostile token soup, structured style sheets with character-level damage and truncation, mutations of the css-parsing-tests inputs, escape/number/url micro-grammars, An+B shaped texts, newline/NUL/multi-byte position stress. " +
-			"A case is non-trivial when the reference sees at least two component values (recursively) and every entry point was compared; distinct = distinct source text.",
+			"A source is non-trivial when the reference sees at least two component values (recursively) and every entry point was compared for it (counter sources_nontrivial); a case is non-trivial when one of its sources is.",
 		N:     nCases,
 		Gen:   genCase,
 		Check: check,
 		Floor: func(tier string) int {
 			if tier == "thorough" {
-				return 800000
+				return 300000
 			}
-			return 120000
+			return 30000
 		},
 		CounterFloors: func(tier string) map[string]int64 {
 			m := map[string]int64{
@@ -118,7 +119,7 @@ func init() {
 			"sub-domains removed because of known findings are listed in notes/C06.md and counted in the excluded_* counters",
 		},
 		Exhaustive: func(tier string) bool { return true },
-		Batch:      20000,
+		Batch:      2000,
 	})
 }
 
@@ -338,8 +339,12 @@ func check(raw json.RawMessage) fw.Result {
 	}
 	var res fw.Result
 	compared, nontrivial := 0, 0
-	for _, src := range in.Srcs {
-		one := checkOne(src, in.Class)
+	for k, src := range in.Srcs {
+		class := in.Class
+		if k < len(in.Cls) {
+			class = in.Cls[k]
+		}
+		one := checkOne(src, class)
 		for k, v := range one.Counters {
 			res.Count(k, v)
 		}
